@@ -3,6 +3,7 @@ package main
 // Forced schedules on the real condition-variable queues of /repo.
 
 import (
+	"bytes"
 	"context"
 	"fmt"
 	"runtime"
@@ -346,6 +347,10 @@ func newCondQ(typ string, reqmax, ctrlmax int) condQ {
 type cBatch struct {
 	Launches []cLaunch `json:"launches,omitempty"`
 	Lanes    [][]cOp   `json:"lanes,omitempty"`
+	// LanesFirst: the lanes are started before the consumers, and the consumers are launched only once a lane has
+	// been seen asleep between two attempts of an ...Anyway add (a scheduling nudge towards the retry path, bounded;
+	// nothing is concluded from it)
+	LanesFirst bool `json:"lanesfirst,omitempty"`
 }
 
 type cSchedule struct {
@@ -440,7 +445,7 @@ func (r *condRun) exec(b cBatch) *cObs {
 	res, qu, consumers := r.res, r.qu, r.consumers
 	r.sc.Batches = append(r.sc.Batches, b)
 	{
-		// launch consumers
+		launchConsumers := func() {
 		for _, la := range b.Launches {
 			c := &cConsumer{t: la.T, done: make(chan struct{})}
 			consumers[la.T] = c
@@ -456,6 +461,10 @@ func (r *condRun) exec(b cBatch) *cObs {
 				c.res = qu.Pop(anyway)
 			}(c, la.A)
 			c.gid = <-gidCh
+		}
+		}
+		if !b.LanesFirst {
+			launchConsumers()
 		}
 		// lanes
 		laneDone := make([]chan struct{}, len(b.Lanes))
@@ -482,6 +491,21 @@ func (r *condRun) exec(b cBatch) *cObs {
 				}
 			}
 			go run(i) // always its own goroutine: a call that never returns must not take the driver with it
+		}
+		if b.LanesFirst {
+			for spins := 0; spins < 2000; spins++ {
+				asleep := false
+				for _, g := range snapshot() {
+					if g.state == "sleep" && bytes.Contains(g.stack, []byte("Anyway(")) && bytes.Contains(g.stack, []byte(qu.Frame())) {
+						asleep = true
+					}
+				}
+				if asleep {
+					break
+				}
+				runtime.Gosched()
+			}
+			launchConsumers()
 		}
 		laneStuck := false
 		for i := range laneDone {
